@@ -81,7 +81,7 @@ def to_term(case, ob):
 
 # ----------------------------------------------------------------------------- generators
 NAMES = ["a", "b", "c", "items", "item", "itemsx", "Items", "_", "_x1", "aé", "A_9", "name", "i", "x" * 12,
-         "éx"[::-1], "b2", "a١", "a中", "n²", "items1", "itemsé", "_items", "Items_"]
+         "éx"[::-1], "b2", "a١", "a中", "n²", "items1", "itemsé", "_items", "Items_", "größe", "x²", "t_α", "Ünï"]
 EXTRA = list("ab_19AZz+*.:,[] \t\n\r\f") + ["items", "\x0b", "-", "(", ")", "é", "€", "١", "ß", "\u00a0", "\u0301", "#",
                                               "'", "中", "ñ", "²", "ª", "\u2028", "\x1c", "\x85", "\u200b", "‿", "\\", "\x00"]
 
@@ -188,8 +188,18 @@ def rotate(rnd, t):
 
 
 def perturb(rnd, t):
-    """Change one leaf or one connector (the result denotes other paths, or - rarely - the same)."""
+    """Change one leaf or one connector, or add / drop a parallel branch somewhere (the result denotes other paths,
+    or - rarely - the same)."""
     k = t[0]
+    r0 = rnd.random()
+    if r0 < 0.2 and k != "any":
+        return ("par", t, ("trait", "extra"))                    # a superset of the branches
+    if r0 < 0.3 and k == "par":
+        return t[1] if rnd.random() < 0.5 else t[2]              # a subset
+    if r0 < 0.4 and k == "series" and not has_any(t[3]):
+        return ("series", t[1], t[2], ("par", t[3], ("trait", "extra")))
+    if r0 < 0.45 and k in ("trait", "items", "meta"):
+        return ("series", t, ".", ("trait", "extra"))            # a longer path
     if k == "series":
         c = rnd.random()
         if c < 0.3:
@@ -238,9 +248,12 @@ def corpus():
     texts = ["[a.*, b.c]", "[a:*,b]", "[*]", "a.[b,b]", "a:[items , items]", "a.[b.c,b.c]",           # findings
              "*", "name.*", "*.name", "[a, *].name", "b.*", "a.b.c", "a:b:c", "a, b", "items", "+items", "+ a",
              "container.items.value", "container:items:*", "[a,b].c", "a.[b,c]", "foo.[bar,baz]", "foo:[bar,baz]",
-             "foo.+updated", "itemsa", "items a", "a b", "a1.b_2", "1a", "a.é", "aé.b", "", " ", "a..b", "a.",
+             "foo.+updated", "itemsa", "items a", "a b", "a1.b_2", "1a", "a.é", "aé.b", "größe", "x²", "t_α", "a.größe:x²", "+t_α", "[größe,x²].t_α", "", " ", "a..b", "a.",
              ".a", "[a", "a]", "[]", "a,,b", "+", "+*", "+[a]", "a.[b.c,b:c]", "[a,a].b", "a,a", "[[[[a]]]]", "a\x0bb",
-             "a.[b,c].d", "a:[b,c:[d,e.f]].g", "*,a", "a,*", "*,*", "a.*,b:*", "a.*.b", "a.[*]", "[a,b.*]"]
+             "a.[b,c].d", "a:[b,c:[d,e.f]].g",
+             # branches after a connector that begin alike and differ further down or in length (distinct patterns)
+             "a.[b.c,b.d]", "a:[b:c,b:d]", "a.[b.c,b]", "a.[b,b.c]", "a.[b.c.d,b.c.e]", "x.[items.p,items.q]", "a.[+m.c,+m.d]",
+             "a.[b.c,b:c]", "a.[b.[c,d],b.e]", "a.[b.c,b.d].e", "r:[a.[b.c,b.d],a.[b.c,b.e]]", "a.[items,items.x].n", "*,a", "a,*", "*,*", "a.*,b:*", "a.*.b", "a.[*]", "[a,b.*]"]
     cs = [dict(kind="single", s=s) for s in texts]
     pairs = [("a.b.c", "a.[b.c]"), ("a:b.c", "a:[b.c]"), ("a,b,c", "a,[b,c]"), ("a.b", " a\t.\nb "), ("a", "[[a]]"),
              ("a.[b,c]:d", "[a].[[b],c]:[d]"), ("a.items:b", "a . items : b"), ("a.b.*", "[a.b].*"),
@@ -254,7 +267,11 @@ def corpus():
             for pos in range(len(toks) + 1):
                 cs.append(dict(kind="pair", s1=base, s2="".join(toks[:pos]) + ws + "".join(toks[pos:])))
     diff = [("a.b", "a.c"), ("a.b", "a:b"), ("a.[b,c]", "a.[b,d]"), ("a.items", "a.item"), ("a.+m", "a.+n"), ("a.*", "a.b"),
-            ("a.b.c", "a.b.d"), ("a,b", "a,c"), ("x.[a.b,c]", "x.[a:b,c]")]
+            ("a.b.c", "a.b.d"), ("a,b", "a,c"), ("x.[a.b,c]", "x.[a:b,c]"),
+            # one pattern's branches are a subset of the other's, in both orders and at several depths
+            ("a.b", "a.[b,c]"), ("a.[b,c]", "a.b"), ("a.b", "a.b.c"), ("a.b.c", "a.b"), ("a", "a.b"), ("a.b", "a"),
+            ("a.[b,c]", "a.[b,c,d]"), ("a.[b,c,d]", "a.[c,d]"), ("x.a.b", "x.a.[b,c]"), ("x.a.[b.c,d]", "x.a.[b.c]"),
+            ("a:items", "a:items.b"), ("a.+m", "a.[+m,b]"), ("a.[b,*]", "a.*"), ("größe.x²", "größe.[x²,t_α]")]
     cs += [dict(kind="pair", same=False, s1=a, s2=b) for a, b in diff]
     return cs + expr_corpus() + hook_corpus()
 
@@ -370,6 +387,20 @@ def gen_cases(rnd, ctx, n):
         elif r < 0.80:
             cs.append(dict(kind="single", s="".join(rnd.choice(enc.ALPHABET) for _ in range(rnd.randint(7, 16)))))
             ctx.count("gen:random-symbols")
+        elif r < 0.83:
+            # a group after a connector whose branches share their first element(s) and differ further down
+            head = gen_tree(rnd, rnd.randint(0, 1), False)
+            tails = [gen_tree(rnd, rnd.randint(0, 2), True) for _ in range(rnd.randint(2, 3))]
+            branches = [("series", head, rnd.choice(".:") if rnd.random() < 0.3 else ".", tl) for tl in tails]
+            if rnd.random() < 0.3:
+                branches.append(head)
+            grp = branches[0]
+            for b in branches[1:]:
+                grp = ("par", grp, b)
+            t = ("series", gen_tree(rnd, 0, False), rnd.choice(".:"), grp)
+            if npaths(t) <= 48:
+                cs.append(dict(kind="single", s=render(rnd, t, ws=rnd.choice([0, 0.2]))))
+                ctx.count("gen:common-head-branches")
         elif r < 0.86:
             # two different patterns: one leaf or connector of the tree changed
             t = gen_tree(rnd, rnd.randint(1, 4), True)
@@ -716,7 +747,6 @@ def run(ctx):
         proof_gate(ctx, ok, log, PROPS)
         return
     quick = ctx.tier == "quick"
-    check_grammar(ctx)
     # embedded cases first (corpus includes the triggers of the listed findings)
     t0 = time.time()
     cases = corpus() + derivation_cases(rnd, ctx, quick) + gen_cases(rnd, ctx, 900 if quick else 12000)
@@ -754,6 +784,7 @@ def run(ctx):
     run_grid(ctx, win, "windows", per_file=8 if quick else 40)
     ctx.cov["timing_s"] = dict(embedded_cases=round(t1 - t0, 1), exhaustive_grid=round(t2 - t1, 1),
                                windows=round(time.time() - t2, 1))
+    check_grammar(ctx)      # last, so that concrete failing texts are reported before the transcription mismatch
     ctx.cov["exhaustive"] = True
     ctx.cov["exhaustive_bound"] = "all strings of length <= %d over the 13-symbol alphabet (%d strings)%s" % (
         top, sum(enc.BASE ** L for L in range(top + 1)),
